@@ -332,7 +332,21 @@ class Interp:
                     from harness.engines.ctxstack import empty_context_class
 
                     cls = empty_context_class()  # (a context whose truth value is False is a context like any other)
-                c = cls(ctxs[-1]) if (ctxs and case.get("explicit_parent")) else cls()
+                if ctxs and case.get("via_component"):
+                    # the child is created from the context object a component kept (what current_context() gave
+                    # it during start()), after that component has started: the parent is the context behind it
+                    from asphalt.core import Component, current_context, start_component
+
+                    kept: dict[str, Any] = {}
+
+                    class Keeper(Component):
+                        async def start(self) -> None:
+                            kept["ctx"] = current_context()
+
+                    await start_component(Keeper, timeout=None)
+                    c = cls(kept["ctx"])
+                else:
+                    c = cls(ctxs[-1]) if (ctxs and case.get("explicit_parent")) else cls()
                 await c.__aenter__()
                 ctxs.append(c)
             if case.get("leak_in_task"):
@@ -455,7 +469,8 @@ def cases(draw: Any, tier: str) -> dict:
     if d.pct(12):
         depth = d.int(2, 4)
         return {"type": "corrupt", "backend": draw(BACKEND), "sched_seed": 0, "depth": depth, "leave": d.int(0, depth - 2),
-                "explicit_parent": d.bool(), "outer_root": d.bool(), "leak_in_task": d.pct(35), "falsy_ctx": d.pct(25)}
+                "explicit_parent": d.bool(), "outer_root": d.bool(), "leak_in_task": d.pct(35), "falsy_ctx": d.pct(25),
+                "via_component": d.pct(20)}
     hi = 3 if tier == "quick" else 5
     c: dict[str, Any] = {"type": "life", "backend": draw(BACKEND), "sched_seed": draw(SEED), "kind": d.pick(["root", "nested"]),
                          "exit": d.pick(EXITS)}
